@@ -159,38 +159,30 @@ def gen_schedules(rep, quick, seed, want, families=()):
     """Scenarios from BrokerStep (edge cover; thorough: + all short sequences; + random deep ones), each paired with
     configurations drawn from BrokerStep!StepConfigs; plus the scenario families of FAMILIES (those marked per
     configuration carry their own).  Returns (schedules, lossless configs)."""
-    r = tlc.run_tlc(COMP, "BrokerStep", "Step_edge.cfg", workers=1, timeout=900)
-    rep.add_tlc("BrokerStep/Step_edge.cfg", r, "one shortest driver schedule per edge of the abstract scenario graph")
-    if not r.ok or "CFGS" not in r.tagged:
-        rep.infra_error("BrokerStep schedule generation failed: " + r.out[-1200:])
+    jobs = [("edge", "Step_edge.cfg", {}, "one shortest driver schedule per edge of the abstract scenario graph")]
+    jobs += [(name, FAMILIES[name][0], {}, FAMILIES[name][1]) for name in families]
+    jobs.append(("sim", "Step_sim.cfg", dict(simulate=dict(num=100 if quick else 250), depth=20, seed=seed),
+                 "random deep driver schedules (-simulate)"))
+    if not quick:
+        jobs.append(("all", "Step_all.cfg", {}, "all driver schedules of length Depth (one subscriber pair, one publisher)"))
+    with cf.ThreadPoolExecutor(max_workers=len(jobs)) as ex:
+        res = dict(zip([j[0] for j in jobs],
+                       ex.map(lambda j: tlc.run_tlc(COMP, "BrokerStep", j[1], workers=1, timeout=900, **j[2]), jobs)))
+    for name, cfg, kw, what in jobs:
+        rep.add_tlc("BrokerStep/" + cfg, res[name], what)
+        if not res[name].ok:
+            rep.infra_error("BrokerStep %s generation failed: %s" % (cfg, res[name].out[-1200:]))
+            return [], []
+    r = res["edge"]
+    if "CFGS" not in r.tagged:
+        rep.infra_error("BrokerStep did not print its configurations")
         return [], []
     cfgs = sorted(r.tagged["CFGS"][0], key=lambda c: json.dumps(c, sort_keys=True))
     lossless = r.tagged["LOSSLESS"][0]
     scen = replay.dedupe(r.tagged.get("BEH", []))
-    fam = {}
-    for name in families:
-        cfg, what, procs, nquick = FAMILIES[name]
-        rf = tlc.run_tlc(COMP, "BrokerStep", cfg, workers=1, timeout=600)
-        rep.add_tlc("BrokerStep/" + cfg, rf, what)
-        if not rf.ok:
-            rep.infra_error("BrokerStep %s generation failed: %s" % (cfg, rf.out[-1200:]))
-            return [], []
-        fam[name] = replay.dedupe(rf.tagged.get("BEH", []))
-    rs = tlc.run_tlc(COMP, "BrokerStep", "Step_sim.cfg", workers=1, simulate=dict(num=100 if quick else 250), depth=20,
-                     seed=seed, timeout=900)
-    rep.add_tlc("BrokerStep/Step_sim.cfg", rs, "random deep driver schedules (-simulate)")
-    if not rs.ok:
-        rep.infra_error("BrokerStep simulation failed: " + rs.out[-1200:])
-        return [], []
-    sim = replay.dedupe(rs.tagged.get("BEH", []))
-    allseq = []
-    if not quick:
-        ra = tlc.run_tlc(COMP, "BrokerStep", "Step_all.cfg", workers=4, timeout=900)
-        rep.add_tlc("BrokerStep/Step_all.cfg", ra, "all driver schedules of length Depth (one subscriber pair, one publisher)")
-        if not ra.ok:
-            rep.infra_error("BrokerStep enumeration failed: " + ra.out[-1200:])
-            return [], []
-        allseq = replay.dedupe(ra.tagged.get("BEH", []))
+    fam = {name: replay.dedupe(res[name].tagged.get("BEH", [])) for name in families}
+    sim = replay.dedupe(res["sim"].tagged.get("BEH", []))
+    allseq = replay.dedupe(res["all"].tagged.get("BEH", [])) if not quick else []
     rng = random.Random(seed)
 
     def stratified(bs):
